@@ -218,3 +218,5 @@ func argsAfterTier() []string {
 	}
 	return out
 }
+
+func jsonUnmarshal(b []byte, v any) { _ = json.Unmarshal(b, v) }
